@@ -1,5 +1,5 @@
 (* TextProofs6.v — engine T, proofs part 6 (C10): read_report (write_text r) = r, and the
-   truncation theorem with the known finding K4 (cut inside the last path line of a group). *)
+   truncation theorem (every cut strictly inside a group is rejected; K4 was repaired in /repo 2eccdb7). *)
 From FV Require Import Base TextModel TextProofs TextProofs2 TextProofs3 TextProofs4 TextProofs5.
 Open Scope N_scope.
 
@@ -204,10 +204,6 @@ Proof.
   induction (g_files g) as [|p f IH]; [reflexivity|]. cbn [flat_map map concat]. rewrite IH. reflexivity.
 Qed.
 
-(* K4: the cut lies strictly inside the last path line of the group *)
-Definition K4 (g : group) (k : nat) : Prop :=
-  (length (write_group g) - length (write_path_line (last (g_files g) [])) < k)%nat.
-
 Lemma read_paths_eof m : read_paths (S m) [] = RPErr.
 Proof. reflexivity. Qed.
 
@@ -218,70 +214,55 @@ Proof.
   cbn [app]. f_equal. apply IH. assumption.
 Qed.
 
-(* a partial (unterminated, proper prefix of a) path line followed by the end of the stream *)
-Lemma read_paths_partial p x y m : path_ok p -> write_path_line p = x ++ y -> y <> [] -> x <> [] ->
-  read_paths (S (S m)) x = RPErr.
+(* an unterminated, non-empty last line is rejected (read_paths requires the line feed) *)
+Lemma read_paths_partial x m : x <> [] -> ~ In 10 x -> read_paths (S m) x = RPErr.
 Proof.
-  intros Hp E Hy Hx.
-  destruct (path_line_props p Hp) as (e & Ee & Se & Ne).
-  unfold write_path_line in E. rewrite Ee in E.
-  (* x is a prefix of the line content: no line feed, no carriage return *)
-  destruct (@exists_last _ y Hy) as [y' [z Ey]]. subst y.
-  assert (Ez : z = 10 /\ S_INDENT ++ 47 :: e = x ++ y').
-  { change (S_INDENT ++ (47 :: e) ++ NL) with ((S_INDENT ++ 47 :: e) ++ [10]) in E.
-    rewrite app_assoc in E. apply app_inj_tail in E as [E1 E2]. split; [symmetry; assumption|assumption]. }
-  destruct Ez as [-> Ec].
-  assert (Hc : no_ctl (x ++ y')).
-  { rewrite <- Ec. apply no_ctl_app. split; [repeat constructor; lia|assumption]. }
-  apply no_ctl_app in Hc as [Hcx _].
-  cbn [read_paths].
-  destruct (read_line_tail x (no_ctl_not_in x 10 Hcx ltac:(lia))) as [R|R]; rewrite R; [reflexivity|].
+  intros Hx Hn. cbn [read_paths].
+  destruct (read_line_tail x Hn) as [R|R]; rewrite R; [reflexivity|].
   destruct x as [|x0 xr]; [contradiction|]. cbv beta iota.
-  destruct (strip_prefix S_INDENT (x0 :: xr)) as [body|] eqn:Es; [|reflexivity].
-  destruct (nonempty (str_trim (x0 :: xr))); [|reflexivity].
-  apply strip_prefix_some in Es.
-  assert (Hcb : no_ctl body).
-  { rewrite Es in Hcx. apply no_ctl_app in Hcx as [_ H]. exact H. }
-  rewrite (strip_eol_noeol body (no_ctl_not_in _ 10 Hcb ltac:(lia)) (no_ctl_not_in _ 13 Hcb ltac:(lia))).
-  (* body is a prefix of the encoded path *)
-  assert (Eb : 47 :: e = body ++ y').
-  { rewrite Es, <- app_assoc in Ec. apply app_inv_head in Ec. exact Ec. }
-  unfold path_from_escaped. destruct (stfu8_decode body) as [d1|] eqn:Ed; [|reflexivity].
-  destruct Hp as (Hb & Hz & Habs & Hn).
-  pose proof (stfu8_roundtrip p Hb) as Rt. unfold path_to_escaped in Ee. rewrite Ee, Eb in Rt.
-  destruct (decode_prefix (length body) body (Nat.le_refl _) y' p d1 Rt Ed) as [d2 Ep].
-  replace (existsb (N.eqb 0) d1) with false; [reflexivity|].
-  symmetry. destruct (existsb (N.eqb 0) d1) eqn:E0; [|reflexivity].
-  apply existsb_exists in E0 as [w [Hw Ew]]. apply N.eqb_eq in Ew. subst w.
-  unfold nul_free in Hz. rewrite Forall_forall in Hz. exfalso. apply (Hz 0); [|reflexivity].
-  rewrite Ep. apply in_or_app. left. exact Hw.
+  replace (last (x0 :: xr) 0 =? 10) with false; [reflexivity|].
+  symmetry. apply N.eqb_neq. intros E. apply Hn. rewrite <- E.
+  destruct (@exists_last _ (x0 :: xr) ltac:(discriminate)) as [l' [z Ez]]. rewrite Ez, last_last.
+  apply in_or_app. right. left. reflexivity.
 Qed.
 
-(* complete lines of the first files, then the end of the stream or a partial non-last line *)
-Lemma read_paths_cut : forall fs, Forall path_ok fs -> forall m x,
-  (x = [] /\ (length fs < m)%nat) \/
-  ((exists p y, path_ok p /\ write_path_line p = x ++ y /\ y <> [] /\ x <> []) /\ (S (length fs) < m)%nat) ->
+(* a proper prefix of a path line contains no line feed *)
+Lemma path_line_prefix_no_nl p x y : path_ok p -> write_path_line p = x ++ y -> y <> [] -> ~ In 10 x.
+Proof.
+  intros Hp E Hy.
+  destruct (path_line_props p Hp) as (e & Ee & Se & Ne).
+  unfold write_path_line in E. rewrite Ee in E.
+  destruct (@exists_last _ y Hy) as [y' [z Ey]]. subst y.
+  assert (Ec : S_INDENT ++ 47 :: e = x ++ y').
+  { change (S_INDENT ++ (47 :: e) ++ NL) with ((S_INDENT ++ 47 :: e) ++ [10]) in E.
+    rewrite app_assoc in E. apply app_inj_tail in E as [E1 _]. exact E1. }
+  assert (Hc : no_ctl (x ++ y')).
+  { rewrite <- Ec. apply no_ctl_app. split; [repeat constructor; lia|assumption]. }
+  apply no_ctl_app in Hc as [Hcx _]. apply no_ctl_not_in; [assumption|lia].
+Qed.
+
+(* complete lines of the first files, then the end of the stream or an unterminated rest *)
+Lemma read_paths_cut : forall fs, Forall path_ok fs -> forall m x, ~ In 10 x -> (length fs < m)%nat ->
   read_paths m (flat_map write_path_line fs ++ x) = RPErr.
 Proof.
-  induction 1 as [|p fs Hp Hf IH]; intros m x Hc.
-  - cbn [flat_map app length] in *. destruct Hc as [[-> Hm]|[(p & y & Hp & E & Hy & Hx) Hm]].
-    + destruct m; [lia|]. reflexivity.
-    + destruct m as [|[|m]]; try lia. eapply read_paths_partial; eassumption.
-  - destruct m as [|m]; [cbn [length] in Hc; destruct Hc as [[_ H]|[_ H]]; lia|].
-    cbn [flat_map]. rewrite <- app_assoc, (read_path_line p _ _ Hp). rewrite IH; [reflexivity|].
-    cbn [length] in Hc. destruct Hc as [[-> Hm]|[Hex Hm]]; [left; split; [reflexivity|lia]|right; split; [assumption|lia]].
+  induction 1 as [|p fs Hp Hf IH]; intros m x Hn Hm.
+  - cbn [flat_map app length] in *. destruct m as [|m]; [lia|].
+    destruct x as [|x0 xr]; [reflexivity|]. apply read_paths_partial; [discriminate|assumption].
+  - destruct m as [|m]; [cbn [length] in Hm; lia|].
+    cbn [flat_map]. rewrite <- app_assoc, (read_path_line p _ _ Hp). rewrite IH; [reflexivity|assumption|].
+    cbn [length] in Hm. lia.
 Qed.
 
 Lemma min_to_nat a b : N.to_nat (N.min (N.of_nat a) (N.of_nat b)) = Nat.min a b.
 Proof. rewrite <- Nat2N.inj_min, Nat2N.id. reflexivity. Qed.
 
-(* reading a group text that was cut (not in the K4 class) fails *)
+(* reading a group text that was cut anywhere strictly inside fails *)
 Lemma read_cut_group g k fuel : group_ok g -> g_files g <> [] ->
-  (0 < k < length (write_group g))%nat -> ~ K4 g k ->
+  (0 < k < length (write_group g))%nat ->
   read_groups (S fuel) (firstn k (write_group g)) = ([], GErr).
 Proof.
-  intros Hg Hfne Hk Hk4. pose proof Hg as (Hne & Hb & Hlen & Hp & Hcnt).
-  unfold K4 in Hk4. rewrite write_group_lines in *.
+  intros Hg Hfne Hk. pose proof Hg as (Hne & Hb & Hlen & Hp & Hcnt).
+  rewrite write_group_lines in *.
   destruct (firstn_concat (group_lines g) k ltac:(lia)) as (j & l & x & y & Hn & El & Hy & Hf & Ek).
   rewrite Hf. destruct j as [|j].
   - (* the cut is in the group header line *)
@@ -359,43 +340,24 @@ Proof.
       rewrite <- (firstn_skipn j (g_files g)). apply in_or_app. left. exact Hq. }
     assert (Hlj : length (firstn j (g_files g)) = j) by (rewrite firstn_length; lia).
     rewrite min_to_nat.
-    rewrite read_paths_cut; [reflexivity|assumption|].
-    rewrite Hlj. rewrite app_length.
-    pose proof (path_lines_length (firstn j (g_files g))) as Hpl. rewrite Hlj in Hpl.
-    destruct x as [|x0 xr].
-    + left. split; [reflexivity|]. apply Nat.min_glb_lt; lia.
-    + right. split; [exists p, y; split; [assumption|]; split; [exact El|]; split; [assumption|discriminate]|].
-      (* not K4: line j is not the last one *)
-      assert (Hnl : (S j < length (g_files g))%nat).
-      { destruct (Nat.eq_dec (S j) (length (g_files g))) as [Elast|]; [|lia]. exfalso. apply Hk4.
-        (* j is the last index: the cut is after the start of the last line *)
-        assert (Elp : last (g_files g) [] = p).
-        { clear - Enp Elast. revert j Enp Elast. induction (g_files g) as [|a fs IHl]; intros j Enp Elast; [destruct j; discriminate|].
-          destruct j as [|j]; cbn in *.
-          - injection Enp as ->. destruct fs; [reflexivity|cbn in Elast; lia].
-          - destruct fs as [|a' fs']; [destruct j; discriminate|]. apply (IHl j); [assumption|cbn in *; lia]. }
-        rewrite Elp.
-        assert (Esplit : g_files g = firstn j (g_files g) ++ [p]).
-        { clear - Enp Elast. revert j Enp Elast. induction (g_files g) as [|a fs IHl]; intros j Enp Elast; [destruct j; discriminate|].
-          destruct j as [|j]; cbn in *.
-          - injection Enp as ->. destruct fs; [reflexivity|cbn in Elast; lia].
-          - f_equal. apply IHl; [assumption|lia]. }
-        rewrite Ek. rewrite Esplit at 1. rewrite flat_map_app. cbn [flat_map]. rewrite app_nil_r.
-        rewrite !app_length. cbn [length]. lia. }
-      cbn [length]. apply Nat.min_glb_lt; lia.
+    rewrite read_paths_cut; [reflexivity|assumption| |].
+    + apply (path_line_prefix_no_nl p x y Hpj); [exact El|assumption].
+    + rewrite Hlj. rewrite app_length.
+      pose proof (path_lines_length (firstn j (g_files g))) as Hpl. rewrite Hlj in Hpl.
+      apply Nat.min_glb_lt; lia.
 Qed.
 
 Lemma truncation h gs g k : header_ok h -> Forall group_ok gs -> group_ok g -> g_files g <> [] ->
-  (0 < k < length (write_group g))%nat -> ~ K4 g k ->
+  (0 < k < length (write_group g))%nat ->
   read_report (write_header h ++ flat_map write_group gs ++ firstn k (write_group g)) = RepText h gs GErr.
 Proof.
-  intros Hh Hgs Hg Hf Hk Hk4. rewrite (read_report_groups h _ Hh).
+  intros Hh Hgs Hg Hf Hk. rewrite (read_report_groups h _ Hh).
   rewrite (read_groups_app gs Hgs).
   2:{ rewrite app_length. pose proof (groups_length human gs). lia. }
   rewrite app_length.
   pose proof (groups_length human gs) as Hl.
   destruct (S (length (flat_map write_group gs) + length (firstn k (write_group g))) - length gs)%nat as [|fuel] eqn:Ef; [lia|].
-  rewrite (read_cut_group g k fuel Hg Hf Hk Hk4). rewrite app_nil_r. reflexivity.
+  rewrite (read_cut_group g k fuel Hg Hf Hk). rewrite app_nil_r. reflexivity.
 Qed.
 
 End Truncation.
@@ -425,43 +387,9 @@ Proof. intros [] _. split; [repeat constructor; lia|reflexivity]. Qed.
 Lemma json_path_roundtrip p : path_ok p -> path_from_escaped (path_to_escaped p) = POk p.
 Proof. apply path_decode_encode. Qed.
 
-(* K4 witness (see Props_C10.v) *)
+(* K4 regression (see Props_C10.v): the old witness — group with the one path /ab, cut before the final "b" and
+   the line feed — and a hand-edited report whose last path line merely lacks its line feed *)
 Definition k4_header : header unit :=
   @mkHeader unit [48; 46; 51; 53; 46; 48] tt [[102; 99]; [97; 32; 98]] [47; 119]
            (Some (mkStats 1 1 7 0 0 0 0)).
 Definition k4_group : group := mkGroup [73; 22] 7 [[47; 97; 98]].
-
-
-Lemma k4_witness :
-  exists (human : N -> list N) (TS : Type) (fmt_ts : TS -> list N) (parse_ts : list N -> option TS)
-         (ts_ok : TS -> Prop),
-  (forall n, human n <> [] /\
-             Forall (fun b => 32 <= b < 127 /\ b <> 42 /\ b <> 41 /\ b <> 58) (human n)) /\
-  (forall t, ts_ok t -> Forall (fun b => 32 <= b < 127) (fmt_ts t) /\
-                        parse_ts (str_trim (fmt_ts t)) = Some t) /\
-  exists (h : header TS) (g : group) (k : nat),
-    header_ok TS ts_ok h /\ group_ok g /\ g_files g <> [] /\
-    (0 < k < length (write_group human g))%nat /\ K4 human g k /\
-    read_report TS parse_ts (write_header human TS fmt_ts h ++ firstn k (write_group human g))
-    = @RepText TS h [mkGroup (g_hash g) (g_len g) [[47; 97]]] GEnd.
-Proof.
-  exists human_demo, unit, fmt_demo, parse_demo, (fun _ => True).
-  split; [exact human_demo_ok|]. split; [exact ts_demo_ok|].
-  exists k4_header, k4_group, 27%nat.
-  split.
-  { repeat split.
-    - exists [48], [51; 53], [48]. repeat split; try discriminate; repeat constructor.
-    - repeat constructor; try discriminate; vm_compute; reflexivity.
-    - repeat constructor; vm_compute; reflexivity.
-    - repeat constructor; discriminate.
-    - eexists. reflexivity.
-    - eexists. split; [reflexivity|]. repeat split; vm_compute; discriminate. }
-  split.
-  { repeat split; try discriminate; try (vm_compute; discriminate).
-    - repeat constructor; vm_compute; reflexivity.
-    - repeat constructor; try discriminate; try (vm_compute; reflexivity).
-      + eexists. reflexivity. }
-  split; [discriminate|]. split; [vm_compute; split; apply Nat.leb_le; reflexivity|].
-  split; [vm_compute; apply Nat.leb_le; reflexivity|].
-  vm_compute. reflexivity.
-Qed.
